@@ -2,7 +2,7 @@
    Only the property theorems live here; proofs are in Proofs/ConnState.v, Proofs/ConnError.v and
    Proofs/Idle.v. *)
 From Coq Require Import List ZArith NArith Bool.
-From GQ Require Import Model.ConnState Model.Idle Model.ConnError Proofs.ConnState Proofs.Idle Proofs.ConnError Proofs.ConnErrorLater Proofs.ConnErrorClean Proofs.ConnErrorFlag.
+From GQ Require Import Model.ConnState Model.Idle Model.ConnError Model.ConnEnd Proofs.ConnEnd Proofs.ConnState Proofs.Idle Proofs.ConnError Proofs.ConnErrorLater Proofs.ConnErrorClean Proofs.ConnErrorFlag.
 Import ListNotations.
 
 (* ---------------------------------------------------------------- the state word *)
@@ -121,12 +121,75 @@ Qed.
    c17_release_no_data apply to every later operation.  ([c_fix23], the choice of the repaired
    on_conn_error, is a constant of the state: c17_flag_constant.) *)
 Theorem c17_release_all : forall cfg m0 before e after,
-  cm_init true cfg = Some m0 -> Forall (fun o => fst o <> 21%N) before ->
+  cm_init true cfg = Some m0 -> Forall (fun o => fst o <> 21%N /\ fst o <> 24%N) before ->
   let m := cm_exec m0 0 before in
   (forall t, In t (registered m) -> In t (c_woken (conn_error e m))) /\
   registered (conn_error e m) = [] /\
   forall idx, Poisoned e (cm_exec (conn_error e m) idx after).
 Proof. exact p_c17_release_all'. Qed.
+
+(* the close racing a poll (stream operation 24; "error-free history" above excludes both the plain
+   error 21 and this one).  Schedule at the granularity of lock-protected sections: a poll of open_bi /
+   open_uni / accept_bi / accept_uni has entered its critical section (it holds the stream / listener
+   guards and has found the connection healthy) when the connection error e begins; everything the
+   fan-out does to the stream tables, the listener and the stream-id waiters happens under those
+   guards, so it is serialised after the poll ([race] = the poll against the healthy state, then the
+   whole fan-out).  Then: the operation answers what the poll answered; if that was Pending, the
+   poll's own task is woken by the close (it cannot be left parked on a limit that nobody will raise);
+   every sleeper registered before is woken; no slot keeps a sleeper; after any further history the
+   connection is poisoned with e.  The harness forces this schedule on the real DataStreams with
+   two threads, so a fan-out step moved outside the guards (it would run BEFORE the poll parks)
+   shows as a parked task that is never completed. *)
+Theorem c17_race_release : forall cfg m0 before e t a k idx after,
+  cm_init true cfg = Some m0 -> Forall (fun o => fst o <> 21%N /\ fst o <> 24%N) before ->
+  race_kind t a = Some k ->
+  let m := cm_exec m0 0 before in
+  let m1 := fst (start_task m idx k) in
+  fst (race m idx e t a) = conn_error e m1 /\
+  snd (race m idx e t a) = snd (start_task m idx k) /\
+  (snd (start_task m idx k) = [0%Z; 0%Z] -> In idx (c_woken (conn_error e m1))) /\
+  (forall x, In x (registered m1) -> In x (c_woken (conn_error e m1))) /\
+  registered (conn_error e m1) = [] /\
+  forall i, Poisoned e (cm_exec (conn_error e m1) i after).
+Proof. exact p_c17_race. Qed.
+
+(* non-vacuity: client, limit of one bidirectional stream used up, a second open_bi races the close:
+   the poll parks on the stream limit (Pending) and the close completes it with the error *)
+Example c17_race_release_nonvacuous :
+  run_connerr [0; 0; 1; 1; 10]%Z [(0%N, []); (1%N, [0%Z]); (24%N, [7; 1; 0]%Z)] =
+  [[1; -1; 0; -2; 0]; [1; 0; -1; 0; -2; 0]; [0; 0; -1; 0; -2; 1; 2; 2; 7]]%Z.
+Proof. vm_compute. reflexivity. Qed.
+
+(* ---------------------------------------------------------------- both endpoints, end to end (stream connend) *)
+(* Model/ConnEnd.v: operations of every kind pending on the client and on the server while the
+   connection is ended by a local close (Components::enter_closing), by the peer's CONNECTION_CLOSE
+   (Components::enter_draining) after the handshake, or by the server refusing the client at the
+   ClientHello (enter_draining before the peer's transport parameters are known).  The REAL dquic
+   endpoints are driven with the same histories every run and must answer as the model.
+   Any configuration, ANY history, then an observation point: no operation is left pending on an
+   endpoint whose terminated() has resolved (those pending when it resolved and those started later
+   alike), and that endpoint stays terminated for ever after *)
+Theorem c17_end_all : forall cfg ops ms t s k,
+  let m := ce_exec (ce_init cfg) 0 ops in
+  let m' := fst (advance m ms) in
+  (In (t, (s, k)) (e_tasks m') -> dead_at m' s (e_now m') = false) /\
+  (forall later idx, dead_at m' s (e_now m') = true ->
+     dead_at (ce_exec m' idx later) s (e_now (ce_exec m' idx later)) = true).
+Proof. exact p_c17_end_all. Qed.
+
+(* what an observation point reports: completions in task order, each Ok (1) or the terminating error
+   (2); a completion on an endpoint that had terminated before the observation interval began is
+   always the terminating error *)
+Theorem c17_end_codes : forall a b l, e_term b = e_term a -> (e_now a <= e_now b)%N ->
+  codes_ok a l (fst (sweep a b l)).
+Proof. exact p_sweep_codes. Qed.
+
+(* non-vacuity (and the seeded defect's scenario): the server refuses the client during the handshake
+   with accept_bi, datagram_writer and open_bi pending on the client: all three complete with the error *)
+Example c17_end_nonvacuous :
+  run_connend [1%Z] [(1%N, [0; 3]%Z); (1%N, [0; 6]%Z); (1%N, [0; 1]%Z); (2%N, [1000%Z]); (1%N, [0; 3]%Z); (2%N, [1%Z])] =
+  [[0]; [1]; [2]; [1000; 3; 0; 2; 1; 2; 2; 2; 1; 0]; [4]; [1001; 1; 4; 2; 1; 0]]%Z.
+Proof. vm_compute. reflexivity. Qed.
 
 (* no operation of any history writes the flag that selects which on_conn_error the model runs *)
 Theorem c17_flag_constant : forall ops m idx, c_fix23 (cm_exec m idx ops) = c_fix23 m.
@@ -220,6 +283,11 @@ Print Assumptions c17_release_poisons.
 Print Assumptions c17_release.
 Print Assumptions c17_release_no_data.
 Print Assumptions c17_release_all.
+Print Assumptions c17_race_release.
+Print Assumptions c17_race_release_nonvacuous.
+Print Assumptions c17_end_all.
+Print Assumptions c17_end_codes.
+Print Assumptions c17_end_nonvacuous.
 Print Assumptions c17_flag_constant.
 Print Assumptions c17_pending_registers.
 Print Assumptions c17_release_refuted.
